@@ -146,6 +146,75 @@ def make(cwds=("", "src"), catalogue=None):
     return fn
 
 
+
+FAULT_TREE = [c for c in CATALOGUE if c[0] in ("e.task.5", "e.task.7", "p/e.task.5", "p/q/f.task.9", "p/q/f.task.11", "e.task.12")]
+FS_BOUND = {"quick": 24, "thorough": 40}
+SQL_BOUND = {"quick": 6, "thorough": 10}
+
+
+def make_fault(kind, bound):
+    """gc on a fixed tree (3 recorded versions, 3 unrecorded outputs, a run_command output) with at most one injected failure
+    (vlib.faults): the k-th file-system call under cond-out fails with EACCES / the k-th statement on the version index fails
+    with 'database is locked'.  A gc that fails because of the fault is acceptable; deleting or modifying anything that is not
+    an unrecorded experiment output is not, and --dry-run must still delete nothing."""
+    def fn(g):
+        import conductor.cli.gc as cli_gc
+        from vlib import faults
+        proj = hrun.Project()
+        try:
+            proj.write("COND", "run_experiment(name='e', run='true')\nrun_command(name='c', run='true')\n")
+            dry = g.flag("dry_run")
+            k = g.choose("fault_at", bound + 1)
+            proj.out.mkdir()
+            recorded = set()
+            for rel, kind_, rec in sorted(FAULT_TREE, key=lambda c: (c[0] == "e.task.12", c[0].count("/"))):
+                if rec:
+                    pkg, base = os.path.split(rel)
+                    nm, ts = base.rsplit(".task.", 1)
+                    proj.add_version("//%s:%s" % (pkg, nm), int(ts))
+                    recorded.add(("//%s:%s" % (pkg, nm), int(ts)))
+                else:
+                    (proj.out / rel / "sub").mkdir(parents=True, exist_ok=True)
+                    (proj.out / rel / "sub" / "out.txt").write_text("data " + rel)
+            (proj.out / "c.task").mkdir()
+            (proj.out / "c.task" / "result.txt").write_text("run_command output")
+            (proj.out / "p" / "c2.task").mkdir()
+            (proj.out / "p" / "c2.task" / "result.txt").write_text("run_command output")
+            before = hrun.tree_digest(proj.root)
+            rows_before = proj.index_rows()
+            want = oracle_delete_set(str(proj.out), recorded)
+            flt = faults.OneFault(k, proj.out) if kind == "fs" else faults.OneSqlFault(k)
+            res = hrun.invoke(faults.with_faults(cli_gc.main, flt), argparse.Namespace(dry_run=dry, verbose=False, debug=False), str(proj.root),
+                              fakeos.Kernel(fakeos.Sched()))
+            D = "dry_run=%s fault=%s" % (dry, flt.fired)
+            g.note("max fault-eligible calls", flt.n)
+            if isinstance(res.status, str) and not (flt.fired and res.status in ("exc:OSError", "exc:PermissionError", "exc:OperationalError")):
+                g.require(False, "gc:crash:%s:fault" % res.status[4:], "%s; %s" % (res.exc, D))
+            if not flt.fired:
+                g.require(res.status == 0, "gc:failed", "status=%r err=%r; %s" % (res.status, res.err[-200:], D))
+            after = hrun.tree_digest(proj.root)
+            gone = sorted(x for x in before if x not in after)
+            changed = sorted(x for x in after if x in before and before[x] != after[x] and not x.endswith("version_index.sqlite"))
+            added = sorted(x for x in after if x not in before)
+            g.require(not changed and not added, "gc:modified-something", "changed %s added %s; %s" % (changed, added, D))
+            g.require(proj.index_rows() == rows_before, "gc:index-rows-changed", "%s -> %s; %s" % (rows_before, proj.index_rows(), D))
+            if dry:
+                g.require(not gone, "gc:dry-run-deleted", "removed %s; %s" % (gone, D))
+            else:
+                expect_gone = sorted(x for x in before if any(
+                    x == os.path.join("cond-out", w) or x.startswith(os.path.join("cond-out", w) + os.sep) for w in want))
+                extra = [x for x in gone if x not in expect_gone]
+                missing = [x for x in expect_gone if x not in gone]
+                g.require(not extra, "gc:deleted-too-much", "removed %s which is not an unrecorded experiment output; %s" % (extra[:6], D))
+                if not flt.fired:
+                    g.require(not missing, "gc:left-unrecorded-output", "did not remove %s; %s" % (missing[:6], D))
+            if flt.fired:
+                g.goal("injected fault fired")
+            return {"nontrivial": bool(flt.fired), "sample": {"case": D, "delete_set": want}}
+        finally:
+            proj.cleanup()
+    return fn
+
 # ---------------------------------------------------------------- lemma
 
 def lemma_names():
@@ -315,6 +384,16 @@ def scale_fn(g):
 
 
 def spaces(tier):
+    return _spaces(tier) + [
+        Space("fs-fault", make_fault("fs", FS_BOUND[tier]), "gc / gc --dry-run on a fixed tree (3 recorded versions, 3 unrecorded outputs with a sub-directory each, "
+              "2 run_command outputs); at most one file-system call made on behalf of Conductor under cond-out (listdir, scandir, mkdir, rmdir, open, "
+              "unlink, ...) fails with EACCES, which one (k <= %d) is a decision variable; a failing gc is accepted, deleting anything else is not" % FS_BOUND[tier],
+              depth=3, goals=["injected fault fired"], outside=["more than one fault", "other errno values", "faults in calls relative to a directory fd"]),
+        Space("sql-fault", make_fault("sql", SQL_BOUND[tier]), "same tree; at most one statement on the version index fails with 'database is locked' "
+              "(k <= %d a decision variable)" % SQL_BOUND[tier], depth=3, goals=["injected fault fired"], outside=["other sqlite errors"])]
+
+
+def _spaces(tier):
     goals = ["something to delete next to something to keep", "look-alike nested inside a task output", "listing from a sub-directory"]
     return [Space("scale-rows-and-leftovers", scale_fn, "101 / 136 recorded versions of two tasks (rows interleaved) + 9 / 12 unrecorded outputs in the "
                   "same package, packages four levels deep, equal timestamps across tasks, cond-out or a package directory below it being a "
